@@ -317,6 +317,80 @@ def fit_copies(cls):
     return res["warnings"] and res["disqualification"]
 
 
+MUTABLE_CALLS = {"dict", "list", "set", "defaultdict", "OrderedDict", "Counter", "deque", "bytearray"}
+
+
+def class_level_mutables(cls):
+    """{attribute: defining class} for mutable containers created at class scope (dict/list/set displays, comprehensions,
+    dict()/list()/set()/defaultdict()/... calls) anywhere in the MRO (the most derived definition wins)"""
+    out = {}
+    for k in reversed([k for k in cls.__mro__ if k is not object]):
+        try:
+            node = ast.parse(textwrap.dedent(inspect.getsource(k))).body[0]
+        except (OSError, TypeError):
+            continue
+        if not isinstance(node, ast.ClassDef):
+            raise Unrecognised("source of %s is not a class" % k.__name__)
+        for st in node.body:
+            tl, v = [], None
+            if isinstance(st, ast.Assign):
+                tl, v = st.targets, st.value
+            elif isinstance(st, ast.AnnAssign) and st.value is not None:
+                tl, v = [st.target], st.value
+            for t in tl:
+                if not isinstance(t, ast.Name):
+                    continue
+                mutable = isinstance(v, (ast.Dict, ast.List, ast.Set, ast.DictComp, ast.ListComp, ast.SetComp)) or (
+                    isinstance(v, ast.Call) and ((isinstance(v.func, ast.Name) and v.func.id in MUTABLE_CALLS) or
+                                                 (isinstance(v.func, ast.Attribute) and v.func.attr in MUTABLE_CALLS)))
+                if mutable:
+                    out[t.id] = k
+                else:
+                    out.pop(t.id, None)           # re-defined as something immutable further down the hierarchy
+    return out
+
+
+def shared_class_state(cls):
+    """class-level mutable attributes that instance methods of the class (whole MRO) mutate IN PLACE through `self`
+    (self.a[...] = / del self.a[...] / self.a.append(...) / self.a[...] += ...) and that no __init__ of the MRO re-binds
+    per instance (self.a = ...).  Returns {attribute: (defining class name, [sites])}"""
+    cand = class_level_mutables(cls)
+    if not cand:
+        return {}
+    rebound = set()
+    sites = {}
+    for k in cls.__mro__:
+        if k is object:
+            continue
+        for name, fn in k.__dict__.items():
+            f = getattr(fn, "__func__", fn)
+            if isinstance(fn, (classmethod, staticmethod)) or not inspect.isfunction(f):
+                continue
+            try:
+                node = fn_ast(f)
+            except (OSError, TypeError, Unrecognised):
+                continue
+            for sub in ast.walk(node):
+                if isinstance(sub, (ast.Assign, ast.AugAssign, ast.AnnAssign, ast.Delete)):
+                    tl = sub.targets if isinstance(sub, (ast.Assign, ast.Delete)) else [sub.target]
+                    for t0 in tl:
+                        for t in (t0.elts if isinstance(t0, (ast.Tuple, ast.List)) else [t0]):
+                            if is_self_attr(t) and t.attr in cand and name == "__init__" and isinstance(sub, (ast.Assign, ast.AnnAssign)):
+                                rebound.add(t.attr)
+                            base = t
+                            depth = 0
+                            while isinstance(base, (ast.Subscript, ast.Attribute)) and not is_self_attr(base):
+                                base = base.value
+                                depth += 1
+                            if depth > 0 and is_self_attr(base) and base.attr in cand:
+                                sites.setdefault(base.attr, []).append("%s.%s: %s" % (k.__name__, name, ast.unparse(t)))
+                elif isinstance(sub, ast.Call) and isinstance(sub.func, ast.Attribute) and sub.func.attr in MUTATORS \
+                        and is_self_attr(sub.func.value) and sub.func.value.attr in cand:
+                    sites.setdefault(sub.func.value.attr, []).append("%s.%s: self.%s.%s(...)" % (
+                        k.__name__, name, sub.func.value.attr, sub.func.attr))
+    return {a: (cand[a].__name__, v) for a, v in sites.items() if a not in rebound}
+
+
 def flags():
     from opendsm import eemeter as E
     root = os.path.realpath(vlib.repo_root())
@@ -338,6 +412,17 @@ def flags():
         "classes": {},
         "fit_copies": {"Daily": fit_copies(E.DailyModel), "Billing": fit_copies(E.BillingModel), "Hourly": fit_copies(E.HourlyModel)},
     }
+    # model classes: per-fit state kept in a class-level container that instances fill in place
+    out["sharing"] = {}
+    tags = {"DailyModel": "MDaily", "BillingModel": "MBilling", "HourlyModel": "MHourly"}
+    for mname, tag in tags.items():
+        sh = shared_class_state(getattr(E, mname))
+        root = None
+        if sh:
+            owners = sorted({v[0] for v in sh.values()})
+            root = tags.get(owners[0], tag)          # the class that defines the container (BillingModel inherits DailyModel's)
+        out["sharing"][tag] = {"python": mname, "root": root,
+                               "attributes": {a: {"defined_in": v[0], "mutated_at": v[1][:4]} for a, v in sh.items()}}
     for tag, name in CLASSES:
         cls = getattr(E, name)
         owner = next(k for k in cls.__mro__ if "__init__" in k.__dict__)
@@ -358,7 +443,7 @@ def coq_text(fl):
     h = fl["hourly"]
     lines = ["(* GENERATED by harness/translate_c02.py from the source of the package — do not edit. *)",
              "From Coq Require Import List Bool ZArith.",
-             "From V Require Import Model.Gate Model.HourlyState Model.Store.",
+             "From V Require Import Model.Gate Model.HourlyState Model.Store Model.Objects.",
              "Import ListNotations.",
              "",
              "(* assignments to self.<attribute> on the predict path of a fitted HourlyModel: %s *)" % "; ".join(
@@ -375,6 +460,11 @@ def coq_text(fl):
             tag, b(c["init_writes_arg"]), b(c["series_writes_arg"]), b(c["df"] == "copy"), name))
     lines.append(";\n".join(rows))
     lines.append("].")
+    lines.append("")
+    lines.append("(* class-level mutable attributes that instance methods fill in place: %s *)" % (
+        "; ".join("%s.%s" % (v["python"], a) for v in fl["sharing"].values() for a in v["attributes"]) or "none"))
+    lines.append("Definition current_sharing : list (mclass * option mclass) := [%s]." % "; ".join(
+        "(%s, %s)" % (tag, "None" if v["root"] is None else "Some %s" % v["root"]) for tag, v in fl["sharing"].items()))
     lines.append("")
     lines.append("Definition current_fit_copies (f : family) : bool :=")
     lines.append("  match f with Daily => %s | Billing => %s | Hourly => %s end." % (
